@@ -225,15 +225,25 @@ def run_unit(repo, name, workdir):
         for (rel, parent, nm) in _missing_names(res, gen):
             if rel.startswith('dep:'):
                 continue
-            try:
-                srctext = open(os.path.join(repo, rel)).read()
-            except OSError:
-                continue
-            for kind in ('const', 'static', 'fn', 'struct', 'enum', 'type'):
-                anchor = '%s %s' % (kind, nm)
-                if re.search(r'^[ \t]*(?:pub(?:\([a-z]+\))?\s+)?(?:const\s+|async\s+)*%s\s+%s\b' % (kind, re.escape(nm)), srctext, re.M) and not any(a[0] == rel and a[2] == anchor for a in auto):
-                    auto.append((rel, parent, anchor))
-                    added = True
+            # the same file first; for constants also the crate root (`use super::*` / `crate::NAME`)
+            cands = [(rel, ('const', 'static', 'fn', 'struct', 'enum', 'type'))]
+            mcr = re.match(r'(crates/[^/]+|bin/[^/]+)/src/', rel)
+            if mcr and not rel.endswith('/src/lib.rs'):
+                cands.append((mcr.group(0) + 'lib.rs', ('const', 'static')))
+            done = False
+            for (item_rel, kinds) in cands:
+                try:
+                    srctext = open(os.path.join(repo, item_rel)).read()
+                except OSError:
+                    continue
+                for kind in kinds:
+                    anchor = '%s %s' % (kind, nm)
+                    if re.search(r'^[ \t]*(?:pub(?:\([a-z]+\))?\s+)?(?:const\s+|async\s+)*%s\s+%s\b' % (kind, re.escape(nm)), srctext, re.M) and not any(a[2] == anchor and (a[3] if len(a) > 3 else a[0]) == item_rel for a in auto):
+                        auto.append((rel, parent, anchor, item_rel))
+                        added = True
+                        done = True
+                        break
+                if done:
                     break
         if not added:
             break
